@@ -1,99 +1,18 @@
 //! rbxverif: implementation-side harness of the /verif correspondence checks.
 //! Subcommands write line-oriented text files; the Python driver `check` diffs them against the
-//! output of the extracted Coq models (`ocaml/modelrun`).
+//! output of the extracted Coq models (`ocaml/modelrun`).  One module per case kind; each exports
+//! `cli(args) -> bool`.
 mod domops;
 mod rng;
-
-use std::collections::BTreeMap;
-use std::io::Write;
-
-fn arg_val(args: &[String], name: &str) -> Option<String> {
-    args.iter().position(|a| a == name).and_then(|i| args.get(i + 1).cloned())
-}
-fn arg_num(args: &[String], name: &str, default: u64) -> u64 {
-    arg_val(args, name).map(|s| s.parse().expect("numeric argument")).unwrap_or(default)
-}
-
-pub fn read_cases(path: &str) -> Vec<(String, Vec<String>)> {
-    let text = std::fs::read_to_string(path).expect("read cases");
-    let mut out = Vec::new();
-    let mut cur: Option<(String, Vec<String>)> = None;
-    for line in text.lines() {
-        if let Some(id) = line.strip_prefix("case ") {
-            cur = Some((id.to_string(), Vec::new()));
-        } else if line == "end" {
-            if let Some(c) = cur.take() {
-                out.push(c);
-            }
-        } else if let Some(c) = cur.as_mut() {
-            if !line.trim().is_empty() {
-                c.1.push(line.to_string());
-            }
-        }
-    }
-    out
-}
+mod sched;
+mod util;
 
 fn main() {
     std::panic::set_hook(Box::new(|_| {}));
     let args: Vec<String> = std::env::args().collect();
-    let cmd = args.get(1).map(|s| s.as_str()).unwrap_or("");
-    match cmd {
-        "domops-gen" => {
-            let seed = arg_num(&args, "--seed", 1);
-            let n = arg_num(&args, "--cases", 100);
-            let cfg = domops::GenCfg {
-                max_ops: arg_num(&args, "--max-ops", 30) as usize,
-                max_doms: arg_num(&args, "--max-doms", 3) as usize,
-                malformed_percent: arg_num(&args, "--malformed", 10),
-                cycle_probe: args.iter().any(|a| a == "--cycle-probe"),
-            };
-            let out = arg_val(&args, "--out").expect("--out");
-            let prefix = arg_val(&args, "--prefix").unwrap_or_else(|| "g".into());
-            let mut f = std::io::BufWriter::new(std::fs::File::create(out).unwrap());
-            let mut rng = rng::Rng::new(seed);
-            for k in 0..n {
-                let mut crng = rng.fork();
-                let lines = domops::gen_case(&mut crng, &cfg);
-                writeln!(f, "case {prefix}{seed}-{k}").unwrap();
-                for l in lines {
-                    writeln!(f, "{l}").unwrap();
-                }
-                writeln!(f, "end").unwrap();
-            }
-        }
-        "domops-run" => {
-            let cases = read_cases(&args[2]);
-            let mut obs = std::io::BufWriter::new(std::fs::File::create(&args[3]).unwrap());
-            let mut orc = std::io::BufWriter::new(std::fs::File::create(&args[4]).unwrap());
-            let mut stats: BTreeMap<String, u64> = BTreeMap::new();
-            let mut nontrivial = 0u64;
-            let mut distinct = std::collections::BTreeSet::new();
-            for (id, lines) in &cases {
-                let r = domops::run_case(lines);
-                writeln!(obs, "case {id}").unwrap();
-                for o in &r.obs {
-                    writeln!(obs, "{o}").unwrap();
-                }
-                writeln!(obs, "end").unwrap();
-                for o in &r.oracle {
-                    writeln!(orc, "{id} {o}").unwrap();
-                }
-                for (k, v) in r.stats {
-                    *stats.entry(k).or_insert(0) += v;
-                }
-                if r.nontrivial && distinct.insert(lines.join("\n")) {
-                    nontrivial += 1;
-                }
-            }
-            stats.insert("cases".into(), cases.len() as u64);
-            stats.insert("distinct_nontrivial".into(), nontrivial);
-            let mut sf = std::fs::File::create(&args[5]).unwrap();
-            writeln!(sf, "{}", serde_json::to_string(&stats).unwrap()).unwrap();
-        }
-        _ => {
-            eprintln!("usage: rbxverif <domops-gen|domops-run> ...");
-            std::process::exit(2);
-        }
+    let handled = domops::cli(&args) || sched::cli(&args);
+    if !handled {
+        eprintln!("usage: rbxverif <kind>-<gen|run> ...");
+        std::process::exit(2);
     }
 }
